@@ -1,4 +1,4 @@
-from typing import Union
+from typing import Optional, Union
 
 from bitarray import bitarray
 from bitarray.util import ba2int, int2ba
@@ -15,13 +15,16 @@ class SlotType(BitsInterface):
     """
 
     def __init__(
-        self, colour_code: int, data_type: Union[int, DataTypes], parity: int = 0
+        self,
+        colour_code: int,
+        data_type: Union[int, DataTypes],
+        parity: Optional[int] = None,
     ):
         """
 
         :param colour_code: value 0-15
         :param data_type: DataTypes or value 0-15
-        :param parity: value 0-4095
+        :param parity: value 0-4095, None to generate
         """
         assert (
             0b0 <= colour_code <= 0b1111
@@ -32,16 +35,16 @@ class SlotType(BitsInterface):
             <= 0b1111
         ), f"Data Type must be in range 0-15, got {data_type}"
         assert (
-            0 <= parity <= 0b111111111111
+            parity is None or 0 <= parity <= 0b111111111111
         ), f"Parity must be in range 0-4095, got {parity}"
         self.colour_code: int = colour_code
         self.data_type: DataTypes = (
             DataTypes(data_type) if isinstance(data_type, int) else data_type
         )
 
-        self.fec_parity: int = parity
+        self.fec_parity: int = parity or 0
 
-        if parity < 1:
+        if parity is None:
             # generate parity if not provided
             self.fec_parity = numpy_array_to_int(
                 Golay2087.generate(self.as_bits()[:8])[8:]
